@@ -22,32 +22,23 @@ RULE = (
 )
 ASSUMPTIONS = [
     "CPython with the GIL: thread switches happen between bytecodes; C-level dict operations are atomic",
-    "scheduling points: every bytecode (or line) of Runtime.__enter__/__exit__/run/handle, current_runtime, inherit, handle_by_default, Request.run, Overloaded.register/switch, MemoryCache.get/set/exists, Cached.evaluate and the cache request handlers; lock acquisitions; elsewhere threads run atomically",
+    "scheduling points: every bytecode (or line) of every function defined in labrea/runtime.py (runtime harnesses), labrea/overload.py (register harnesses) or labrea/cache.py (cached-evaluation harnesses); lock acquisitions; elsewhere threads run atomically",
     "labrea.runtime.lock and Overloaded._lock are replaced from the harness by scheduler-aware locks (a thread waiting on a held lock is disabled)",
 ]
 CHUNK = 1
 
 
 def _targets(gran, group):
+    """Scheduling points by SOURCE FILE: every function of the file (including helpers that a change may
+    add) is traced at the chosen granularity."""
     import labrea.cache as lc
     import labrea.overload as lo
     import labrea.runtime as rt
 
-    groups = {
-        "runtime": [
-            rt.Runtime.__enter__, rt.Runtime.__exit__, rt.Runtime.run, rt.Runtime.handle, rt.current_runtime,
-            rt.inherit, rt.handle_by_default, rt.handle, rt.Request.run,
-        ],
-        "overload": [lo.Overloaded.register, lo.Overloaded.switch.fget, lo.Overloaded.__labrea_evaluate__],
-        "cache": [
-            lc.MemoryCache.get, lc.MemoryCache.set, lc.MemoryCache.exists, lc.Cached.__labrea_evaluate__,
-            lc._set_cache_handler, lc._get_cache_handler, lc._exists_cache_handler,
-        ],
-    }
-    codes = [f.__code__ for f in groups[group]]
+    files = {"runtime": [rt.__file__], "overload": [lo.__file__], "cache": [lc.__file__]}[group]
     if gran == "opcode":
-        return dict(opcode_targets=codes)
-    return dict(line_targets=codes)
+        return dict(opcode_files=files)
+    return dict(line_files=files)
 
 
 class Env:
